@@ -7,12 +7,13 @@ objects), a set of model files, and several *histories*: sequences of loads from
 strings and files, valid and invalid, interleaved over the pool, optionally with
 further metamodels created in the middle of the history.
 
-Implementation side (harness/c16_world.py, run in processes forked from a fork
-server that has imported textx and done nothing else):
-  * every history runs in its own process on the state "pool created";
-  * reference r1: every distinct load alone on the state "pool created" (DESIGN.md Reading);
-  * reference r2: every distinct load in a process that created only its metamodel
-    (the statement, literally: "the same metamodel configuration on a fresh process state").
+Implementation side (harness/c16_world.py, a server process per harness worker; a *fresh state* =
+textx and arpeggio removed from sys.modules and imported again, user classes / processors rebuilt):
+  * every history runs on a fresh state in which the pool has been created;
+  * reference r1: every distinct load alone on a fresh state "pool created" (DESIGN.md Reading);
+  * reference r2: the load on a fresh state in which only its metamodel was created
+    (the statement, literally: "the same metamodel configuration on a fresh process state");
+  * reference r3 (a sample): r2 once more in a really new interpreter.
 Direct oracle: each outcome inside a history (structural dump of the model incl.
 positions, imported models, user-class construction / processor call log; or the
 error with class, location, message) equals r1 and r2.
@@ -218,8 +219,8 @@ def ent_cfg(rng, fqn=False, files=False):
         opts["auto_init_attributes"] = False
     if rng.chance(0.15):
         opts["ignore_case"] = True
-    if rng.chance(0.06):
-        opts["debug"] = True
+    if rng.chance(0.02):
+        opts["debug"] = True  # slow (debug output, .dot exports): rare
     cfg = {"kind": "ent", "grammar": ENT_FQN if fqn else ENT, "opts": opts, "classes": classes,
            "objprocs": objprocs, "modelprocs": modelprocs, "scope": scope}
     if rng.chance(0.3):
@@ -231,7 +232,7 @@ def calc_cfg(rng):
     opts = {"memoization": rng.chance(0.6)}
     if rng.chance(0.2):
         opts["autokwd"] = True
-    if rng.chance(0.06):
+    if rng.chance(0.02):
         opts["debug"] = True
     classes = {"Assign": rng.choice(["plain", "setattr"])} if rng.chance(0.3) else {}
     objprocs = {}
@@ -533,7 +534,9 @@ class Prop(Check):
 
     def gen(self, rng, n, tier):
         for i in range(n):
-            yield gen_case(rng.fork(i), tier)
+            c = gen_case(rng.fork(i), tier)
+            c["check_fresh_interpreter"] = (i % 12 == 0)
+            yield c
 
     def impl(self, case):
         return run_world(case, lean=True)
@@ -718,7 +721,8 @@ class Prop(Check):
                     continue  # a time-out is an infrastructure matter, never evidence about the property
                 key = op_key(op)
                 for name, ref in (("the pool-created state", obs["r1"].get(key) if op[1] < npool else None),
-                                  ("a fresh process with only this metamodel", obs["r2"].get(key))):
+                                  ("a fresh state with only this metamodel", obs["r2"].get(key)),
+                                  ("a new interpreter with only this metamodel", obs.get("r3", {}).get(key))):
                     if ref is None or ref.get("other") == "Timeout" or "crash" in ref:
                         continue
                     if ref != out:
